@@ -197,7 +197,8 @@ pub fn programs(tier: Tier) -> Vec<Pol> {
 
 /// policy-set level: print a whole set through the non-cached path and compare the multiset
 fn set_level(ctx: &Ctx, tier: Tier) {
-    let pols: Vec<Pol> = progs::policies(Tier::Quick).into_iter().filter(|p| !p.has_slots()).collect();
+    // static policies and (unlinked) templates alike: `to_cedar` prints both
+    let pols: Vec<Pol> = progs::policies(Tier::Quick);
     let k = tier.pick(3, 4);
     let st = Style::default();
     let chunks: Vec<&[Pol]> = pols.chunks(k).collect();
@@ -210,9 +211,10 @@ fn set_level(ctx: &Ctx, tier: Tier) {
         };
         let abs_of = |s: &cedar_policy::PolicySet| -> Vec<AbsPol> {
             let a: &ast::PolicySet = s.as_ref();
+            // every template of the core set (static policies are templates without slots there)
             let mut v: Vec<AbsPol> = a
-                .policies()
-                .filter_map(|p| abs_policy(p).ok())
+                .all_templates()
+                .filter_map(|t| abs_template(t).ok())
                 .map(|mut a| {
                     a.id = String::new();
                     a
